@@ -15,12 +15,12 @@ theorem inRange_lt_two64 {t : Ty} {V : Nat} (h : inRange t (Int.ofNat V) = true)
   have h64 : two64 = 18446744073709551616 := rfl
   cases t <;> simp [inRange, Ty.minVal, Ty.maxVal, Ty.signed, Ty.bits] at h <;> omega
 
-theorem load_hex (fuel : Nat) (x : Char) (hx : x = 'x' ∨ x = 'X') (ds suf : List Char)
-    (hdig : ∀ c ∈ ds, isDigitOf 16 c = true) (hne : ds ≠ []) (hs : ∀ c ∈ suf, isSufChar c = true)
+theorem load_hex (fuel : Nat) (x : Char) (hx : x = 'x' ∨ x = 'X') (ds suf rest : List Char)
+    (hdig : ∀ c ∈ ds, isDigitOf 16 c = true) (hne : ds ≠ []) (hs : ∀ c ∈ suf, isSufChar c = true) (hr : Term rest)
     (hV : digitsVal 16 ds < two64) :
-    load (fuel + 1) ('0' :: x :: (ds ++ suf)) true =
-      (let q := integerLiteral (digitsVal 16 ds) false (sufUnsigned suf) (sufLongs suf); ⟨some q.1, q.2⟩, []) := by
-  have hscan := scanHex_digits ds hdig suf (stops_suffix suf hs).1 0 0
+    load (fuel + 1) ('0' :: x :: (ds ++ (suf ++ rest))) true =
+      (let q := integerLiteral (digitsVal 16 ds) false (sufUnsigned suf) (sufLongs suf); ⟨some q.1, q.2⟩, rest) := by
+  have hscan := scanHex_digits ds hdig (suf ++ rest) (stops_suffix suf rest hs hr).1 0 0
   have hexact := hornerMod_exact (r := 16) (by decide) ds 0 (by rw [← digitsVal_eq_horner]; exact hV)
   rw [← digitsVal_eq_horner] at hexact
   have hlen : ds.length ≠ 0 := by cases ds <;> simp_all
@@ -32,15 +32,15 @@ theorem load_hex (fuel : Nat) (x : Char) (hx : x = 'x' ∨ x = 'X') (ds suf : Li
   obtain ⟨hto, hnone⟩ := sizedPrim_ulong (digitsVal 16 ds) (4 * ds.length) hlt hV
   rcases hx with rfl | rfl <;>
     simp [load, List.isPrefixOf, Prim.hd, upper, literalTypedByValue_on, loadHex, hscan, hexact, hlen, hnone,
-      finishFormatted, scanSuffix_suffix _ true suf hs, hto, applySign]
+      finishFormatted, scanSuffix_suffix _ true suf rest hs hr, hto, applySign]
 
 
-theorem load_bin (fuel : Nat) (x : Char) (hx : x = 'b' ∨ x = 'B') (ds suf : List Char)
-    (hdig : ∀ c ∈ ds, isDigitOf 2 c = true) (hne : ds ≠ []) (hs : ∀ c ∈ suf, isSufChar c = true)
+theorem load_bin (fuel : Nat) (x : Char) (hx : x = 'b' ∨ x = 'B') (ds suf rest : List Char)
+    (hdig : ∀ c ∈ ds, isDigitOf 2 c = true) (hne : ds ≠ []) (hs : ∀ c ∈ suf, isSufChar c = true) (hr : Term rest)
     (hV : digitsVal 2 ds < two64) :
-    load (fuel + 1) ('0' :: x :: (ds ++ suf)) true =
-      (let q := integerLiteral (digitsVal 2 ds) false (sufUnsigned suf) (sufLongs suf); ⟨some q.1, q.2⟩, []) := by
-  have hscan := scanBin_digits ds hdig suf (stops_suffix suf hs).2.1 0 0
+    load (fuel + 1) ('0' :: x :: (ds ++ (suf ++ rest))) true =
+      (let q := integerLiteral (digitsVal 2 ds) false (sufUnsigned suf) (sufLongs suf); ⟨some q.1, q.2⟩, rest) := by
+  have hscan := scanBin_digits ds hdig (suf ++ rest) (stops_suffix suf rest hs hr).2.1 0 0
   have hexact := hornerMod_exact (r := 2) (by decide) ds 0 (by rw [← digitsVal_eq_horner]; exact hV)
   rw [← digitsVal_eq_horner] at hexact
   have hlen : ds.length ≠ 0 := by cases ds <;> simp_all
@@ -51,7 +51,7 @@ theorem load_bin (fuel : Nat) (x : Char) (hx : x = 'b' ∨ x = 'B') (ds suf : Li
   obtain ⟨hto, hnone⟩ := sizedPrim_ulong (digitsVal 2 ds) ds.length hlt hV
   rcases hx with rfl | rfl <;>
     simp [load, List.isPrefixOf, Prim.hd, upper, literalTypedByValue_on, loadBinary, hscan, hexact, hlen, hnone,
-      finishFormatted, scanSuffix_suffix _ true suf hs, hto, applySign]
+      finishFormatted, scanSuffix_suffix _ true suf rest hs hr, hto, applySign]
 
 theorem foldl_congr_mem {α β : Type} (f g : α → β → α) (l : List β) (h : ∀ b ∈ l, ∀ a, f a b = g a b) :
     ∀ a, l.foldl f a = l.foldl g a := by
@@ -79,25 +79,25 @@ theorem take_append_sub {α : Type} (a b : List α) : (a ++ b).take ((a ++ b).le
   simp
 
 
-theorem load_dec (fuel : Nat) (d0 : Char) (ds suf : List Char)
-    (hdig : ∀ c ∈ d0 :: ds, isDigitOf 10 c = true) (hnz : d0 ≠ '0') (hs : ∀ c ∈ suf, isSufChar c = true)
+theorem load_dec (fuel : Nat) (d0 : Char) (ds suf rest : List Char)
+    (hdig : ∀ c ∈ d0 :: ds, isDigitOf 10 c = true) (hnz : d0 ≠ '0') (hs : ∀ c ∈ suf, isSufChar c = true) (hr : Term rest)
     (hV : digitsVal 10 (d0 :: ds) < two64) :
-    load (fuel + 1) (d0 :: ds ++ suf) true =
-      (let q := integerLiteral (digitsVal 10 (d0 :: ds)) true (sufUnsigned suf) (sufLongs suf); ⟨some q.1, q.2⟩, []) := by
+    load (fuel + 1) (d0 :: ds ++ (suf ++ rest)) true =
+      (let q := integerLiteral (digitsVal 10 (d0 :: ds)) true (sufUnsigned suf) (sufLongs suf); ⟨some q.1, q.2⟩, rest) := by
   obtain ⟨h09, _, ht, hf, hp, hm, _⟩ := dec_digit (hdig d0 (by simp))
-  have hscan := scanDigits_digits (d0 :: ds) hdig suf (stops_suffix suf hs).2.2 0 false
+  have hscan := scanDigits_digits (d0 :: ds) hdig (suf ++ rest) (stops_suffix suf rest hs hr).2.2 0 false
   have hexact := hornerMod_exact (r := 10) (by decide) (d0 :: ds) 0 (by rw [← digitsVal_eq_horner]; exact hV)
   rw [← digitsVal_eq_horner, ← decVal_eq (d0 :: ds) hdig] at hexact
-  have htake := take_append_sub (d0 :: ds) suf
-  simp only [List.cons_append] at hscan htake
-  have hpre1 : ("true".toList.isPrefixOf (d0 :: (ds ++ suf))) = false := by
+  simp only [List.cons_append] at hscan
+  have hpre1 : ("true".toList.isPrefixOf (d0 :: (ds ++ (suf ++ rest)))) = false := by
     simp [List.isPrefixOf, Ne.symm ht]
-  have hpre2 : ("false".toList.isPrefixOf (d0 :: (ds ++ suf))) = false := by
+  have hpre2 : ("false".toList.isPrefixOf (d0 :: (ds ++ (suf ++ rest)))) = false := by
     simp [List.isPrefixOf, Ne.symm hf]
   simp only [List.cons_append, load, hpre1, hpre2, Prim.hd, List.headD_cons, hp, hm, hnz, false_or, false_and,
-    Bool.false_eq_true, if_false, finishPlain, hscan, scanSuffix_suffix _ false suf hs]
-  have htake' : List.take (ds.length + suf.length + 1 - suf.length) (d0 :: (ds ++ suf)) = d0 :: ds := by
-    have : ds.length + suf.length + 1 - suf.length = ds.length + 1 := by omega
+    Bool.false_eq_true, if_false, finishPlain, hscan, scanSuffix_suffix _ false suf rest hs hr]
+  have htake' : List.take (ds.length + (suf.length + rest.length) + 1 - (suf.length + rest.length))
+      (d0 :: (ds ++ (suf ++ rest))) = d0 :: ds := by
+    have : ds.length + (suf.length + rest.length) + 1 - (suf.length + rest.length) = ds.length + 1 := by omega
     rw [this]; simp
   simp [htake', hexact, literalTypedByValue_on, applySign, hnz]
 
@@ -106,8 +106,9 @@ theorem oct_table : ∀ n, n < 128 →
     (!isDigitOf 8 (Char.ofNat n) || decide (upper (Char.ofNat n) ≠ 'B' ∧ upper (Char.ofNat n) ≠ 'X')) = true := by
   decide +kernel
 
-theorem oct_second (ds suf : List Char) (hdig : ∀ c ∈ ds, isDigitOf 8 c = true) (hs : ∀ c ∈ suf, isSufChar c = true) :
-    upper (Prim.hd (ds ++ suf)) ≠ 'B' ∧ upper (Prim.hd (ds ++ suf)) ≠ 'X' := by
+theorem oct_second (ds suf rest : List Char) (hdig : ∀ c ∈ ds, isDigitOf 8 c = true) (hs : ∀ c ∈ suf, isSufChar c = true)
+    (hr : Term rest) :
+    upper (Prim.hd (ds ++ (suf ++ rest))) ≠ 'B' ∧ upper (Prim.hd (ds ++ (suf ++ rest))) ≠ 'X' := by
   cases ds with
   | cons c t =>
     have h := hdig c (by simp)
@@ -115,34 +116,38 @@ theorem oct_second (ds suf : List Char) (hdig : ∀ c ∈ ds, isDigitOf 8 c = tr
     simpa [h, Prim.hd] using this
   | nil =>
     cases suf with
-    | nil => simp [Prim.hd]; decide
+    | nil =>
+      rcases hr with rfl | ⟨c, t, rfl, hc⟩
+      · simp [Prim.hd]; decide
+      · obtain ⟨_, _, _, _, _, _, _, _, hB, hX⟩ := term_facts c hc
+        simpa [Prim.hd] using And.intro hB hX
     | cons c t =>
       rcases sufChar_cases (hs c (by simp)) with rfl | rfl | rfl | rfl <;> simp [Prim.hd] <;> decide
 
-theorem load_oct (fuel : Nat) (ds suf : List Char)
-    (hdig : ∀ c ∈ ds, isDigitOf 8 c = true) (hs : ∀ c ∈ suf, isSufChar c = true)
+theorem load_oct (fuel : Nat) (ds suf rest : List Char)
+    (hdig : ∀ c ∈ ds, isDigitOf 8 c = true) (hs : ∀ c ∈ suf, isSufChar c = true) (hr : Term rest)
     (hV : digitsVal 8 ds < two64) :
-    load (fuel + 1) ('0' :: ds ++ suf) true =
-      (let q := integerLiteral (digitsVal 8 ds) false (sufUnsigned suf) (sufLongs suf); ⟨some q.1, q.2⟩, []) := by
+    load (fuel + 1) ('0' :: ds ++ (suf ++ rest)) true =
+      (let q := integerLiteral (digitsVal 8 ds) false (sufUnsigned suf) (sufLongs suf); ⟨some q.1, q.2⟩, rest) := by
   have hdig10 : ∀ c ∈ '0' :: ds, isDigitOf 10 c = true := by
     intro c hc
     rcases List.mem_cons.mp hc with rfl | hc
     · decide
     · exact digit_mono (by decide) (hdig c hc)
-  have hscan := scanDigits_digits ('0' :: ds) hdig10 suf (stops_suffix suf hs).2.2 1 false
+  have hscan := scanDigits_digits ('0' :: ds) hdig10 (suf ++ rest) (stops_suffix suf rest hs hr).2.2 1 false
   have hexact := hornerMod_exact (r := 8) (by decide) ds 0 (by rw [← digitsVal_eq_horner]; exact hV)
   rw [← digitsVal_eq_horner, ← octVal_eq ds hdig] at hexact
-  obtain ⟨hB, hX⟩ := oct_second ds suf hdig hs
+  obtain ⟨hB, hX⟩ := oct_second ds suf rest hdig hs hr
   simp only [List.cons_append] at hscan
-  have htake' : List.take (ds.length + suf.length + 1 - suf.length) ('0' :: (ds ++ suf)) = '0' :: ds := by
-    have : ds.length + suf.length + 1 - suf.length = ds.length + 1 := by omega
+  have htake' : List.take (ds.length + (suf.length + rest.length) + 1 - (suf.length + rest.length))
+      ('0' :: (ds ++ (suf ++ rest))) = '0' :: ds := by
+    have : ds.length + (suf.length + rest.length) + 1 - (suf.length + rest.length) = ds.length + 1 := by omega
     rw [this]; simp
-  have hpre1 : ("true".toList.isPrefixOf ('0' :: (ds ++ suf))) = false := by simp [List.isPrefixOf]
-  have hpre2 : ("false".toList.isPrefixOf ('0' :: (ds ++ suf))) = false := by simp [List.isPrefixOf]
-  have hh : Prim.hd (List.drop 1 ('0' :: (ds ++ suf))) = Prim.hd (ds ++ suf) := by simp
+  have hpre1 : ("true".toList.isPrefixOf ('0' :: (ds ++ (suf ++ rest)))) = false := by simp [List.isPrefixOf]
+  have hpre2 : ("false".toList.isPrefixOf ('0' :: (ds ++ (suf ++ rest)))) = false := by simp [List.isPrefixOf]
   simp only [List.cons_append, load, hpre1, hpre2, Prim.hd, List.headD_cons]
   simp [Prim.hd] at hB hX
-  simp [hB, hX, finishPlain, Prim.hd, hscan, scanSuffix_suffix _ false suf hs, htake', hexact,
+  simp [hB, hX, finishPlain, Prim.hd, hscan, scanSuffix_suffix _ false suf rest hs hr, htake', hexact,
     literalTypedByValue_on, applySign]
 
 
@@ -154,9 +159,10 @@ theorem cand_reach (l : IntLit) {t : Ty} (h : t ∈ l.candidates) : Reach t := b
 theorem contains_suffix {suf : List Char} (h : intSuffixes.contains suf = true) : ∀ c ∈ suf, isSufChar c = true :=
   suffix_chars suf (List.contains_iff_mem.mp h)
 
-/-- [lex.icon] typing = primitive::load typing, for every well-formed integer literal -/
-theorem intlit_agree (l : IntLit) (v : Val) (h : intLitVal l = .val v) :
-    loadTok l.text = Prim.ofVal v ∧ Good v := by
+/-- [lex.icon] typing = primitive::load typing, for every well-formed integer literal, wherever it
+    stands in the source text: `rest` is what follows the literal, and `load` stops exactly there -/
+theorem intlit_load (l : IntLit) (v : Val) (h : intLitVal l = .val v) (rest : List Char) (hr : Term rest) (fuel : Nat) :
+    load (fuel + 1) (l.text ++ rest) true = (Prim.ofVal v, rest) ∧ Good v := by
   unfold intLitVal at h
   split at h
   case isFalse => cases h
@@ -184,7 +190,7 @@ theorem intlit_agree (l : IntLit) (v : Val) (h : intLitVal l = .val v) :
     by_cases hr : l.radix = 10 <;> simp [hr] <;> rfl
   obtain ⟨pre, ds, suf⟩ := l
   simp only at hpre hdig hshape hs hspec hV ⊢
-  unfold loadTok IntLit.text
+  unfold IntLit.text
   simp only
   rcases hpre with rfl | rfl | rfl | rfl | rfl | rfl
   · -- decimal
@@ -194,42 +200,52 @@ theorem intlit_agree (l : IntLit) (v : Val) (h : intLitVal l = .val v) :
     | nil => simp at hshape
     | cons d0 t0 =>
       simp at hshape
-      have := load_dec ((d0 :: t0 ++ suf).length) d0 t0 suf (by simpa using hdig) hshape hs hV
-      simp only [List.nil_append]
+      have := load_dec fuel d0 t0 suf rest (by simpa using hdig) hshape hs hr hV
+      simp only [List.nil_append, List.append_assoc]
       rw [this]
       simp [hspec, Prim.ofVal]
   · -- octal
     simp only [IntLit.radix] at hdig hspec hV ⊢
     simp at hdig hspec hV
-    have := load_oct ((['0'] ++ ds ++ suf).length) ds suf hdig hs hV
-    simp only [List.cons_append, List.nil_append] at this ⊢
+    have := load_oct fuel ds suf rest hdig hs hr hV
+    simp only [List.cons_append, List.nil_append, List.append_assoc] at this ⊢
     rw [this]
     simp [hspec, Prim.ofVal]
   · simp only [IntLit.radix] at hdig hspec hV hshape ⊢
     simp at hdig hspec hV hshape
-    have := load_hex ((['0', 'x'] ++ ds ++ suf).length) 'x' (Or.inl rfl) ds suf hdig hshape hs hV
-    simp only [List.cons_append, List.nil_append] at this ⊢
+    have := load_hex fuel 'x' (Or.inl rfl) ds suf rest hdig hshape hs hr hV
+    simp only [List.cons_append, List.nil_append, List.append_assoc] at this ⊢
     rw [this]
     simp [hspec, Prim.ofVal]
   · simp only [IntLit.radix] at hdig hspec hV hshape ⊢
     simp at hdig hspec hV hshape
-    have := load_hex ((['0', 'X'] ++ ds ++ suf).length) 'X' (Or.inr rfl) ds suf hdig hshape hs hV
-    simp only [List.cons_append, List.nil_append] at this ⊢
+    have := load_hex fuel 'X' (Or.inr rfl) ds suf rest hdig hshape hs hr hV
+    simp only [List.cons_append, List.nil_append, List.append_assoc] at this ⊢
     rw [this]
     simp [hspec, Prim.ofVal]
   · simp only [IntLit.radix] at hdig hspec hV hshape ⊢
     simp at hdig hspec hV hshape
-    have := load_bin ((['0', 'b'] ++ ds ++ suf).length) 'b' (Or.inl rfl) ds suf hdig hshape hs hV
-    simp only [List.cons_append, List.nil_append] at this ⊢
+    have := load_bin fuel 'b' (Or.inl rfl) ds suf rest hdig hshape hs hr hV
+    simp only [List.cons_append, List.nil_append, List.append_assoc] at this ⊢
     rw [this]
     simp [hspec, Prim.ofVal]
   · simp only [IntLit.radix] at hdig hspec hV hshape ⊢
     simp at hdig hspec hV hshape
-    have := load_bin ((['0', 'B'] ++ ds ++ suf).length) 'B' (Or.inr rfl) ds suf hdig hshape hs hV
-    simp only [List.cons_append, List.nil_append] at this ⊢
+    have := load_bin fuel 'B' (Or.inr rfl) ds suf rest hdig hshape hs hr hV
+    simp only [List.cons_append, List.nil_append, List.append_assoc] at this ⊢
     rw [this]
     simp [hspec, Prim.ofVal]
 
+theorem intlit_agree (l : IntLit) (v : Val) (h : intLitVal l = .val v) :
+    loadTok l.text = Prim.ofVal v ∧ Good v := by
+  obtain ⟨h1, h2⟩ := intlit_load l v h [] (Or.inl rfl) l.text.length
+  rw [List.append_nil] at h1
+  exact ⟨by unfold loadTok; rw [h1], h2⟩
+
+/-- `true` / `false` followed by anything -/
+theorem boollit_load (b : Bool) (rest : List Char) (fuel : Nat) :
+    load (fuel + 1) ((Lit.bool b).text ++ rest) true = (Prim.ofVal (ofBool b), rest) := by
+  cases b <;> simp [Lit.text, load, List.isPrefixOf, Prim.ofVal, ofBool]
 
 /-- literal text gets the type and value C++ gives it (integer and boolean literals) -/
 theorem lit_agree {l : Lit} {v : Val} (hl : integral (.lit l) = true) (h : litVal l = .val v) :
